@@ -57,12 +57,48 @@ def run(chk, tier, seed):
             kind = "wrong-document-or-level-accepted" if v["res"] == "OK" else "wrong-code"
             chk.violation("verdict:%s:%s:level=%s" % (kind, c01.describe(d["c"]), "huge" if d["c"]["level"] == "huge" else lvl),
                           "verification with document=%s level=%s says %s, Signature.tla allows %s" % (d["c"]["doc"], lvl, v, allowed), dict(line=line, got=o, allowed=allowed, case=d["c"]))
+    n += anchor_policies(chk, rng, tier)
     chk.sample(dict(kind="context case", case=cases[5]["c"], allowed=cases[5]["allowed"]))
     chk.sample(dict(kind="exhaustive digest flips", bits=8 * (len(r["doc"]) - 1), expected="FAIL GEN-01 for every flipped bit"))
     chk.add(evaluations=n, distinct_nontrivial=len(cases) + 8 * (len(r["doc"]) - 1), exhaustive=True, huge_levels=[str(x) for x in HUGE],
             rule="document contexts {equal, other digest, other algorithm} x level contexts {none, <= first correction, correction+1, 12 values from 256 to 2^64-1} x "
                  "signatures with/without another violation, all 256 single-bit flips of one digest, other algorithms/lengths; internal policy")
-    chk.assumptions += ["the five anchor-based policies are exercised with document contexts by the C04 check (they include the internal rules, shown on Policies.tla)"]
+    chk.assumptions += ["under the five anchor-based policies the document contexts are replayed on signatures whose anchor matches (C04 environment: real PKI, publications file, scripted extender)"]
+
+
+GOOD_ENV = dict(internal="ok", cal=True, rec="pub", up="none", upTime="later", upHash="true", pf="given", pfc=dict(atSig="match", later="true"), extAllowed=True, ext="honest", cert="valid")
+
+
+def anchor_policies(chk, rng, tier):
+    """the same document / level contexts under the five anchor policies, each on a signature that would verify OK without the document"""
+    import netsim
+    from checks import c04
+    envs = {"KEY": dict(GOOD_ENV, rec="auth"), "CAL": GOOD_ENV, "PUBFILE": GOOD_ENV, "USERPUB": dict(GOOD_ENV, up="given", upTime="atSigPub"), "GENERAL": GOOD_ENV}
+    exe = netsim.build(); W = c04.World(vlib.scratch("c02_pki")); s = netsim.Session(exe); n = 0
+    try:
+        s.cmd("BNEW")
+        for p, e in envs.items():
+            for rep in range(1 if tier == "quick" else 4):
+                ctxs = [("equal", "-", "OK", "-"), ("equal", "0", "OK", "-"), ("equal", "1", "FAIL", "GEN-03"), ("equal", "255", "FAIL", "GEN-03"), ("equal", "256", "ERR", "-"), ("equal", str((1 << 64) - 1), "ERR", "-"),
+                        ("equal", str((1 << 32)), "ERR", "-"), ("alg", "-", "FAIL", "GEN-04")] + [("bit%d" % b, "-", "FAIL", "GEN-01") for b in ([0, 7, 100, 255] if tier == "quick" else range(0, 256, 5))]
+                for dk, lv, want, code in ctxs:
+                    cs = c04.Case(W, p, e, rng)
+                    doc = cs.doc if dk == "equal" else ksi.imprint(5, b"other") if dk == "alg" else sigcase.flip(cs.doc, int(dk[3:]))
+                    cs.doc_arg = " %s %s" % (doc.hex(), lv)
+                    line = cs.run(s); f = netsim.kv(line); n += 1
+                    rc = int(f.get("rc", "0x1"), 16); got = {0: "OK", 1: "NA", 2: "FAIL"}.get(int(f["res"])) if f.get("res", "-") != "-" else None
+                    ok = (rc != 0 and got != "OK") if want == "ERR" else (rc == 0 and got == want and (want != "FAIL" or f["code"] == code))
+                    if not ok:
+                        kind = "wrong-document-or-level-accepted" if got == "OK" else "wrong-code"
+                        chk.violation("verdict:%s:%s:doc=%s:level=%s" % (kind, p, "bit" if dk.startswith("bit") else dk, "huge" if len(lv) > 3 else lv),
+                                      "%s policy with document=%s level=%s says rc=0x%x %s %s, expected %s %s" % (p, dk, lv, rc, got, f.get("code"), want, code), dict(line=line, log=[x[:400] for x in s.log[-6:]]))
+    except netsim.Died as ex:
+        chk.violation("crash:anchor-policies", "libksi crashed\n" + str(ex)[-2000:], dict(log=[x[:400] for x in s.log[-10:]])); s = None
+    if s is not None:
+        rc, err = s.close()
+        if rc != 0:
+            chk.violation("crash:anchor-policies:exit", "driver exited rc=%s\n%s" % (rc, err[-2000:]), {})
+    return n
 
 
 def replay(chk, path):
